@@ -270,13 +270,23 @@ def gen_linsolve_classchange(rng, pattern=None):
         classes = list(pattern)
     shp = (n,) if k is None else (n, k)
     varyk = rng.random() < 0.4      # the number of load cases changes between the responses of ONE instance
-    for c in classes[:4]:
+    # a boundary condition that MOVES: every matrix of the history has one decoupled dof (row and column cleared, unit diagonal),
+    # a different one each time, while size and number of stored entries stay the same
+    movebc = n >= 3 and rng.random() < 0.4
+    dofs = rng.permutation(n)
+    for ic, c in enumerate(classes[:4]):
         cplx = c == "csym"
         if varyk:
             kk_ = [None, 1, 2, 3][int(rng.integers(0, 4))]
             shp = (n,) if kk_ is None else (n, kk_)
         A = zoo._rand_matrix(rng, n, c, cplx)
-        if sparse:
+        if movebc:
+            d_ = int(dofs[ic % n])
+            A = np.array(A)
+            A[d_, :] = 0
+            A[:, d_] = 0
+            A[d_, d_] = 1
+        if sparse and not movebc:
             mask = rng.random((n, n)) < 0.7
             mask = mask | mask.T | np.eye(n, dtype=bool)
             A = np.where(mask, A, 0)
@@ -288,7 +298,7 @@ def gen_linsolve_classchange(rng, pattern=None):
         sb = pm.Signal("b", zoo.vcopy(pts[0][1]))
         return pm.LinSolve([sA, sb]), [sA, sb]
 
-    case = zoo.Case(f"LinSolve.classchange.n{n}.{'sp' if sparse else 'de'}.k{k}.{'-'.join(classes[:4])}", make)
+    case = zoo.Case(f"LinSolve.classchange.n{n}.{'sp' if sparse else 'de'}.k{k}.{'-'.join(classes[:4])}{'.movebc' if movebc else ''}", make)
     return case, pts
 
 
@@ -551,6 +561,38 @@ def correspondence(ctx):
         r = call_impl(history_oracle, case, nprng, int(nprng.integers(6, 14)), 1e-6, pts)
         ctx.evaluations += 1
         ctx.branch("lib.assembly-dtypechange")
+        if r[0] == "err":
+            ctx.oracle_fail(f"{case.name}: history raised {r[2][:300]}", {"case": case.name})
+        elif r[1]:
+            ctx.oracle_fail(r[1], {"case": case.name})
+        else:
+            ctx.distinct.add(("lib", case.name))
+    # aggregations with an active set: designs whose entries are all EXACTLY equal (uniform initial design, n = 1) take the
+    # degenerate branch of AggActiveSet (nothing to select); visited between ordinary designs, in both orders
+    for k in range(6 if ctx.quick else 36):
+        case = zoo.generate("aggregation", nprng, [2, 3, 6, 7, 10, 11][k % 6])
+        mm, ss = case.make()
+        if getattr(mm, "active_set", None) is None:
+            continue
+        xb = np.asarray(ss[0].state, dtype=float)
+        uni = [np.full_like(xb, float(nprng.uniform(0.3, 1.8))) for _ in range(2)]
+        oth = [np.clip(xb * nprng.uniform(0.6, 1.5, xb.shape), 0.05, 10.0) for _ in range(2)]
+        pts = [[xb], [uni[0]], [oth[0]], [uni[1]], [oth[1]]] if k % 2 == 0 else [[uni[0]], [xb], [uni[1]], [oth[0]], [oth[1]]]
+        # a design on which the band / fractions leave nothing to aggregate is inadmissible
+        sel_ok = all(np.ones(xb.size, dtype=bool)[mm.active_set(p_[0])].any() for p_ in pts)
+        if not sel_ok:
+            continue
+        case.name += ".uniform-designs"
+        base_make = case.make
+
+        def make(base_make=base_make, first=pts[0][0]):
+            m2, s2 = base_make()
+            s2[0].state = zoo.vcopy(first)
+            return m2, s2
+        case.make = make
+        r = call_impl(history_oracle, case, nprng, int(nprng.integers(8, 16)), 1e-6, pts)
+        ctx.evaluations += 1
+        ctx.branch("lib.aggregation-uniform")
         if r[0] == "err":
             ctx.oracle_fail(f"{case.name}: history raised {r[2][:300]}", {"case": case.name})
         elif r[1]:
